@@ -8,7 +8,7 @@ from uuid import UUID
 
 from ..utils import exceptions as exc
 from ..utils.base import ParamsCollector
-from ..utils.compat import Literal, get_args, is_final, is_annotated, ForwardRef
+from ..utils.compat import Literal, get_args, is_final, is_annotated, ForwardRef, own_forward_refs
 from ..utils.datastructures import unprovided
 from ..utils.functional import copy_value, get_name, multi, distinct_add
 from .options import Options, RuntimeContext
@@ -1270,7 +1270,7 @@ class ParserField:
             # this type should take care in this level
             # because it does not affect validation / transformation
             # and rather a field behaviour
-            args = get_args(annotation)
+            args = own_forward_refs(get_args(annotation))
             if args:
                 annotation = args[0]
             else:
@@ -1288,6 +1288,9 @@ class ParserField:
                 if field:
                     break
             annotation = getattr(annotation, '__origin__', None)
+            if isinstance(annotation, ForwardRef):
+                # (typing shares the objects inside cached generics between every declaration that spells them)
+                annotation = own_forward_refs((annotation,))[0]
         else:
             if inspect.isclass(field) and issubclass(field, Field):
                 # field is a Field subclass
